@@ -213,6 +213,9 @@ func (am *Machine) encryptDataForParticipant(dkgIdentifier, to string, data []by
 
 // decryptDataFromParticipant decrypts the data that was sent to us
 func (am *Machine) decryptDataFromParticipant(data []byte) ([]byte, error) {
+	if len(data) < am.baseSuite.PointLen() {
+		return nil, fmt.Errorf("failed to decrypt data: encrypted data is too short")
+	}
 	decryptedData, err := ecies.Decrypt(am.baseSuite, am.secKey, data, am.baseSuite.Hash)
 	if err != nil {
 		return nil, fmt.Errorf("failed to decrypt data: %w", err)
